@@ -59,7 +59,7 @@ CLAIMED = {
  "C06": ("clustermc", "explicit-state search over the closed system of real replicas with real ClientIO / CommandCache; digest-explaining monitor on every transition",
          "%s Oracle: one ExecuteEvent per committed block in chain order, the application count and digest are explained by executing the committed commands once in order, no (client, seq) twice, executed sequences of honest replicas prefix-related." % E1TEXT, E1NOTE + " In addition every chain of 3 (4) blocks over 12 batches of 3 commands (so that commands repeat across committed blocks) is committed (also with one block withheld and not fetchable) through the real Committer into the real ClientIO with real ExecCommand callers waiting (one per command, one for a command that is only in an abandoned sibling): at most one outcome per caller, success only in the step the command is executed.", "§2, §4 C06"),
  "C07": ("clustermc", "explicit-state search over the closed system of real replicas; monotonicity and evidence monitors on every transition against the ground truth of real signatures",
-         "%s Oracle: view, high QC view (and its block's view), high TC view and committed view never decrease; every view increment is signalled by a consecutive ViewChangeEvent and is justified by a ground-truth quorum of votes (block of view >= v) or timeouts (view >= v); every new high QC / high TC is backed by real signatures. Single-replica part: every input sequence to depth 4 (6) over 52 (simple rule) / 154 (aggregate rule) new-view messages, timeout messages and proposals carrying every combination of QC x TC x aggregate QC each in {absent, genuine (two views), sub-quorum, relabelled, genesis block with another view}, validity known by construction, with and without a signature cache (unmerged, one to two levels shallower)." % E1TEXT, E1NOTE, "§2, §4 C07"),
+         "%s Oracle: view, high QC view (and its block's view), high TC view and committed view never decrease; every view increment is signalled by a consecutive ViewChangeEvent and is justified by a ground-truth quorum of votes (block of view >= v) or timeouts (view >= v); every new high QC / high TC is backed by real signatures. Single-replica part: every input sequence to depth 4 (5) over 63 (simple rule) / 185 (aggregate rule) new-view messages, timeout messages and proposals carrying every combination of QC x TC x aggregate QC each in {absent, genuine (two views), sub-quorum, relabelled, genesis block with another view}, validity known by construction, with and without a signature cache (unmerged, depth 3 / 2)." % E1TEXT, E1NOTE, "§2, §4 C07"),
  "C15": ("schedmc", "exhaustive operation-sequence enumeration and preemption-bounded schedule enumeration of the real CommandCache under a controlled cooperative scheduler (sync/select/go rewritten mechanically), list+mark reference model",
          "(a) every sequence to depth 5 (6 thorough) over {add(c,s) for 2 clients x 3 sequence numbers, proposed(c,s), get} for batch sizes 1..3, a blocked Get being a scheduler-visible state that must end exactly when the reference has a full batch (or on cancellation); (b) nine concurrent scenarios (1-2 adders, marker, 1-2 getters, canceller of all requests or of the first request only with a second, never-cancelled request following): every schedule with <=2 (3) preemptions; oracle: full batches of distinct accepted commands in per-client order, nothing twice, nothing lost, no lost wake-up.",
          "Scheduling points are the lock, select and go operations of the rewritten files; unsynchronised accesses are outside this check (the repository's own race-detector tests cover them).", "§3, §4 C15"),
